@@ -726,7 +726,10 @@ fn stack_case(rng: &mut Rng, idx: usize, max_layers: usize) -> StackCase {
             walkgen::steer(rng, &mut spec, &e, 2);
         }
     }
-    let mut gexpr = if idx % 3 == 1 { Some(walkgen::walk_glob(rng, &spec)) } else { None };
+    // (One glob walk in five walks the *empty* glob — what `partition_or_empty` hands back for an
+    // invariant glob: it matches the walked directory only, and everything else must still reach
+    // the layers as residue; round 9, C16-J.)
+    let mut gexpr = if idx % 15 == 1 { Some(String::new()) } else if idx % 3 == 1 { Some(walkgen::walk_glob(rng, &spec)) } else { None };
     // One case in four runs under a depth behaviour; most of those are glob walks with an
     // invariant prefix (the depth bounds are translated by the prefix length).
     let (depth, window) = if idx % 4 == 3 {
